@@ -26,6 +26,7 @@ THEOREMS = {
     "dist": ["c07_dist_log_prob_spec", "c07_dist_logprob_eq_walk_logp", "c07_padding_keeps_score", "c07_stacked_logprob_eq_walk_logp", "c07_support_characterised",
              "c07_support_nodup", "c07_support_mass_one", "c07_samples_in_support"],
     "greedy": ["c07_greedy_argmax", "c07_greedy_correct", "c07_greedy_error"],
+    "adv": ["c07_walk_correct"],
 }
 
 
@@ -149,6 +150,95 @@ def absmax(t):
 
 
 # ----------------------------------------------------------------------------------------
+# robustness dimensions: entry points, memory layouts, call history (the logical input and the model term stay the same)
+# ----------------------------------------------------------------------------------------
+
+GEN_INPLACE = True    # dist: log_prob after the caller edited the sample (or a returned log-prob tensor) in place.  With
+#                       cache_samples=True the unchanged tree answers from the stale cache: known finding K8
+#                       (known_findings.d/C07.json, signature kind "inplace-after-cache"); see dist_history and signature().
+
+
+class Variant(Exception):
+    """raised by the harness's call wrappers for a broken relation (not an exception of the implementation)"""
+
+
+def as_view(t, form):
+    """the same values as a NON-CONTIGUOUS tensor: 0 = transposed storage, 1 = every second entry of the last dimension
+    of a wider buffer (storage offset 1), 2 = every second entry of the first dimension"""
+    if t.dim() == 0 or t.numel() == 0:
+        return t
+    form %= 3
+    if form == 0:
+        if t.dim() < 2:
+            form = 1
+        else:
+            return t.transpose(0, -1).contiguous().transpose(0, -1)
+    d = -1 if form == 1 else 0
+    shape = list(t.shape)
+    shape[d] = 2 * shape[d] + 1
+    buf = torch.full(shape, 3, dtype=t.dtype)
+    idx = [slice(None)] * t.dim()
+    idx[d] = slice(1, None, 2)
+    buf[tuple(idx)] = t
+    return buf[tuple(idx)]
+
+
+def same_tensor(a, b):
+    return a.shape == b.shape and a.dtype == b.dtype and bool(((a == b) | ((a != a) & (b != b))).all())
+
+
+def call_checked(fn, tensors):
+    """run fn(); afterwards no argument tensor may have changed.  An exception raised inside TorchScript (torch.jit.Error)
+    stands for the RuntimeError the eager code raises."""
+    saved = [t.clone() for t in tensors]
+    try:
+        out = fn()
+    except torch.jit.Error as e:
+        raise RuntimeError(str(e)[:300]) from None
+    if any(not same_tensor(a, b) for a, b in zip(saved, tensors)):
+        raise Variant("the call overwrote one of its argument tensors in place")
+    return out
+
+
+def call_slp(case, logits, hyp, dim, eos):
+    """sequence_log_probs through the entry point / layout / history named by case['via'] (tensor or packed logits)"""
+    from pydrobert.torch.functional import sequence_log_probs
+    from pydrobert.torch.modules import SequenceLogProbabilities
+    via, form = case.get("via"), case.get("form", 0)
+    packed = not isinstance(logits, torch.Tensor)
+    if via == "views":
+        hyp = as_view(hyp, form + 1)
+        if not packed:
+            logits = as_view(logits, form)
+    if via == "module":
+        fn = lambda: SequenceLogProbabilities(dim, eos)(logits, hyp)  # noqa: E731
+    elif via == "script":
+        fn = lambda: torch.jit.script(SequenceLogProbabilities(dim, eos))(logits, hyp)  # noqa: E731
+    elif via == "kw":
+        kw = {}
+        if dim != 0 or form % 2:
+            kw["dim"] = dim
+        if eos is not None or form % 4 >= 2:
+            kw["eos"] = eos
+        fn = lambda: sequence_log_probs(hyp=hyp, logits=logits, **kw)  # noqa: E731
+    else:
+        fn = lambda: sequence_log_probs(logits, hyp, dim, eos)  # noqa: E731
+    tensors = [hyp] + ([logits.data] if packed else [logits])
+    out = call_checked(fn, tensors)
+    if via == "twice":
+        out2 = call_checked(fn, tensors)
+        if not same_tensor(out, out2):
+            raise Variant(f"two identical calls differ: {out.tolist()} vs {out2.tolist()}")
+    return out
+
+
+SLP_VIAS = ("module", "script", "kw", "views", "twice")
+PS_VIAS = ("module", "script", "views", "twice")
+GREEDY_VIAS = ("module", "script", "kw", "views", "twice")
+WALK_VIAS = ("script", "kw", "reuse", "noinit")
+
+
+# ----------------------------------------------------------------------------------------
 # sequence_log_probs (tensor)
 # ----------------------------------------------------------------------------------------
 
@@ -179,8 +269,12 @@ def slp_eval(case):
     nd = len(shape)
     res = {"terms": [], "spec": [], "fail": [], "nontrivial": False}
     try:
-        out = sequence_log_probs(logits, hyp, dim, eos)
+        out = call_slp(case, logits, hyp, dim, eos)
         exc = None
+    except Variant as e:
+        res["impl"] = "variant"
+        res["fail"].append(f"sequence_log_probs via {case.get('via')}: {e}")
+        return res
     except Exception as e:  # noqa: BLE001
         out, exc = None, exc_kind(e)
     if dim < -nd or dim > nd - 1:
@@ -253,7 +347,11 @@ def ps_eval(case):
     hyp_in = hyp.T.contiguous() if bf else hyp
     res = {"terms": [], "spec": [], "fail": [], "nontrivial": len(set(lens)) > 1}
     try:
-        out = sequence_log_probs(ps, hyp_in, dim, eos)
+        out = call_slp(case, ps, hyp_in, dim, eos)
+    except Variant as e:
+        res["impl"] = "variant"
+        res["fail"].append(f"sequence_log_probs (packed) via {case.get('via')}: {e}")
+        return res
     except Exception as e:  # noqa: BLE001
         res["impl"] = exc_kind(e)
         res["fail"].append(f"packed input, dim={dim}: raised {exc_kind(e)} ({str(e)[:80]})")
@@ -304,9 +402,29 @@ def lm_logits(lmseed, by_n, n, prefix, V, xm=None):
     return xm_row(row, r, xm) if xm else row
 
 
+SLM_M, SLM_A = 7, 3
+
+
+def slm_table(case, V):
+    """logits table (M x V, quarter units) of the scriptable hash LM used by the scripted walk"""
+    r = random.Random(f"{case['lmseed']}|slm")
+    rows = [[r.randint(-8, 8) for _ in range(V)] for _ in range(SLM_M)]
+    return [xm_row(row, r, case["xm"]) for row in rows] if case.get("xm") else rows
+
+
+def slm_logits(case, n, prefix, V):
+    h = n % SLM_M if case["by_n"] else 0
+    for tok in prefix:
+        h = (SLM_A * h + int(tok) + 1) % SLM_M
+    return list(slm_table(case, V)[h])
+
+
 def case_logits(case, n, prefix, V):
     """the model's logits for (path n, prefix) as the case defines them, initial-state bias included"""
-    row = lm_logits(case["lmseed"], case["by_n"], n, prefix, V, case.get("xm"))
+    if case.get("via") == "script" and case["api"] == "walk":
+        row = slm_logits(case, n, prefix, V)
+    else:
+        row = lm_logits(case["lmseed"], case["by_n"], n, prefix, V, case.get("xm"))
     if case.get("bias") is not None:
         row = [a + b for a, b in zip(row, case["bias"])]
     return row
@@ -332,6 +450,55 @@ def make_lm(V, lmseed, by_n, rec, xm=None, dtype=torch.float64):
             return (torch.tensor(rows, dtype=torch.float64).view(N, V) / 4).to(dtype), prev
 
     return TableLM(V)
+
+
+_SWLM = None
+
+
+def make_script_lm(case, V, dtype):
+    """TorchScript-compatible LM with the state threaded through `prev` (the library's tests script RandomWalk over a scripted
+    LM): row = table[h], h = hash of (path index if by_n, tokens so far); an initial state {"bias": (V,)} shifts every row"""
+    global _SWLM
+    if _SWLM is None:
+        from typing import Dict, Tuple
+        from pydrobert.torch.modules import SequentialLanguageModel
+
+        class SWalkLM(SequentialLanguageModel):
+            def __init__(self, V: int, M: int, a: int, table: torch.Tensor, by_n: bool):
+                super().__init__(V)
+                self.M, self.a, self.by_n = M, a, by_n
+                self.register_buffer("table", table)
+
+            @torch.jit.export
+            def update_input(self, prev: Dict[str, torch.Tensor], hist: torch.Tensor) -> Dict[str, torch.Tensor]:
+                if "h" in prev:
+                    return prev
+                N = hist.size(1)
+                h = torch.arange(N) % self.M if self.by_n else torch.zeros(N, dtype=torch.long)
+                out = {"h": h}
+                for k, v in prev.items():
+                    out[k] = v
+                return out
+
+            @torch.jit.export
+            def calc_idx_log_probs(self, hist: torch.Tensor, prev: Dict[str, torch.Tensor],
+                                   idx: torch.Tensor) -> Tuple[torch.Tensor, Dict[str, torch.Tensor]]:
+                i = int(idx.item())
+                h = prev["h"]
+                if i > 0:
+                    h = (self.a * h + hist[i - 1] + 1) % self.M
+                logits = self.table[h]
+                if "bias" in prev:
+                    logits = logits + (prev["bias"].to(torch.float64) / 4).to(logits.dtype)
+                out = {"h": h}
+                for k, v in prev.items():
+                    if k != "h":
+                        out[k] = v
+                return logits, out
+
+        _SWLM = SWalkLM
+    tab = (torch.tensor(slm_table(case, V), dtype=torch.float64).view(SLM_M, V) / 4).to(dtype)
+    return torch.jit.script(_SWLM(V, SLM_M, SLM_A, tab, bool(case["by_n"])))
 
 
 def table_term(rec):
@@ -416,7 +583,10 @@ def walk_eval(case):
     V, N, max_iters = case["V"], case["N"], case["max_iters"]
     res = {"terms": [], "spec": [], "fail": [], "nontrivial": False}
     rec = {}
-    lm = make_lm(V, case["lmseed"], case["by_n"], rec, case.get("xm"), case_dtype(case))
+    via, form = case.get("via"), case.get("form", 0)
+    scripted = via == "script"
+    lm = make_script_lm(case, V, case_dtype(case)) if scripted else \
+        make_lm(V, case["lmseed"], case["by_n"], rec, case.get("xm"), case_dtype(case))
     try:
         walk = RandomWalk(lm, case["eos"])
     except ValueError:
@@ -432,9 +602,41 @@ def walk_eval(case):
     draws = sampler.new_walk()
     if case.get("tseed") is not None:
         torch.manual_seed(case["tseed"])
+    init = dict()
+    if case.get("bias") is not None:
+        # an initial state the LM's output depends on
+        init = {"bias": torch.tensor(case["bias"], dtype=torch.long)}
     try:
-        with mock.patch.object(torch, "multinomial", sampler):
-            y, lens, lp = walk(dict(), N, max_iters)
+        if scripted:
+            # torch.multinomial cannot be replaced inside TorchScript: the real generator draws, the draws are read back
+            # from the returned paths (an ended path can only draw eos), and the model re-runs the walk on them
+            walk = torch.jit.script(walk)
+            torch.manual_seed(case.get("tseed") or 0)
+            y, lens, lp = walk(init, N, max_iters)
+            draws[:] = (y if y.dim() == 2 else y.unsqueeze(1)).tolist()
+        else:
+            with mock.patch.object(torch, "multinomial", sampler):
+                if via == "reuse":
+                    # the module object is first used for another walk (other batch size and step limit)
+                    try:
+                        walk(dict(init), (N or 1) + 1 + form % 2, 1 + form % 3)
+                    except Exception:  # noqa: BLE001
+                        pass
+                    rec.clear()
+                    draws = sampler.new_walk()
+                if via == "kw":
+                    kw = {}
+                    if N is not None or form % 2:
+                        kw["batch_size"] = N
+                    if max_iters is not None or form % 4 >= 2:
+                        kw["max_iters"] = max_iters
+                    y, lens, lp = walk(init, **kw) if (init or form % 3) else walk(**kw)
+                elif via == "noinit" and not init:
+                    y, lens, lp = walk(None, N, max_iters) if form % 2 else walk(batch_size=N, max_iters=max_iters)
+                else:
+                    y, lens, lp = walk(init, N, max_iters)
+        if init and not torch.equal(init["bias"], torch.tensor(case["bias"], dtype=torch.long)):
+            res["fail"].append("the walk overwrote the caller's initial state")
     except Exception as e:  # noqa: BLE001
         res["impl"] = exc_kind(e)
         expect = eos is None and max_iters is None or (max_iters is not None and max_iters < 0)
@@ -457,6 +659,14 @@ def walk_eval(case):
     res["impl"] = {"y": yl, "lens": ll, "lp": lpl, "draws": draws}
     if not torch.isfinite(lp).all():
         res["fail"].append(f"non-finite walk log-probability {lpl} (a drawn token has a non-zero probability)")
+    if scripted:
+        if any(not (0 <= k < V) for row in yl for k in row):
+            res["fail"].append(f"scripted walk returned tokens outside the vocabulary: {yl}")
+            return res
+        for n in range(Nn):
+            for t in range(len(yl) + 1):
+                pre = tuple(yl[k][n] for k in range(t))
+                rec[(n, pre)] = case_logits(case, n, pre, V)
     paths = walk_terms(case, V, eos, Nn, max_iters, table_term(rec), draws, yl, ll, lpl, res)
     S = len(yl)
     # the three-way agreement of the property, on the implementation itself
@@ -475,8 +685,246 @@ def walk_eval(case):
 
 
 # ----------------------------------------------------------------------------------------
+# random_walk_advance driven directly (prompts of ragged length: the token goes to position y_prev_lens[n], the buffer
+# grows only when some prompt fills it)
+# ----------------------------------------------------------------------------------------
+
+ADV_VIAS = ("kw", "views", "script", "twice")
+
+
+def adv_eval(case):
+    from pydrobert.torch.functional import random_walk_advance
+    N, V, S, lens = case["N"], case["V"], case["S"], case["lens"]
+    via, form = case.get("via"), case.get("form", 0)
+    res = {"terms": [], "spec": [], "fail": [], "nontrivial": False}
+    r = rnd(case, "adv")
+    y_l = [[r.randrange(V) for _ in range(N)] for _ in range(S)]
+    # log-probabilities in quarter units (NOT normalised: the function does not require it), zero-probability tokens as -inf
+    lpt_l = [[(None if r.random() < case.get("pinf", 0.0) else r.randint(-12, 0)) for _ in range(V)] for _ in range(N)]
+    for row in lpt_l:
+        if all(v is None for v in row):
+            row[r.randrange(V)] = 0
+    prev_l = [r.randint(-40, 0) for _ in range(N)]
+    dt = case_dtype(case)
+    y = torch.tensor(y_l, dtype=torch.long).view(S, N)
+    lpt = torch.tensor([[-math.inf if v is None else v / 4 for v in row] for row in lpt_l], dtype=torch.float64).view(N, V).to(dt)
+    prev = (torch.tensor(prev_l, dtype=torch.float64) / 4).to(dt)
+    lt = None if lens is None else torch.tensor(lens, dtype=torch.long)
+    if via == "views":
+        y, lpt, prev = as_view(y, form), as_view(lpt, form + 1), as_view(prev, 2)
+        if lt is not None:
+            lt = as_view(lt, 2)
+    seen = {}
+
+    def sampler(probs, num_samples, replacement=False, **kw):
+        seen["probs"] = probs.clone()
+        toks = []
+        for n in range(probs.size(0)):
+            ok = [v for v in range(probs.size(1)) if float(probs[n, v]) > 0]
+            toks.append(r.choice(ok) if ok else 0)
+        return torch.tensor(toks, dtype=torch.long).view(-1, 1)
+
+    scripted = via == "script"
+    fnc = torch.jit.script(random_walk_advance) if scripted else random_walk_advance
+    if via == "kw":
+        kw = dict(y_prev=y, log_probs_prev=prev, log_probs_t=lpt)
+        if lt is not None or form % 2:
+            kw["y_prev_lens"] = lt
+        fn = lambda: fnc(**kw)  # noqa: E731
+    elif lt is None and form % 2:
+        fn = lambda: fnc(lpt, prev, y)  # noqa: E731
+    else:
+        fn = lambda: fnc(lpt, prev, y, lt)  # noqa: E731
+    tensors = [lpt, prev, y] + ([lt] if lt is not None else [])
+    try:
+        if scripted:
+            torch.manual_seed(case.get("tseed") or 0)
+            yn, lpn = call_checked(fn, tensors)
+        else:
+            with mock.patch.object(torch, "multinomial", sampler):
+                yn, lpn = call_checked(fn, tensors)
+                if via == "twice":
+                    yn, lpn = call_checked(fn, tensors)     # a second call on the same tensors is judged
+    except Variant as e:
+        res["impl"] = "variant"
+        res["fail"].append(f"random_walk_advance via {via}: {e}")
+        return res
+    except Exception as e:  # noqa: BLE001
+        res["impl"] = exc_kind(e)
+        res["fail"].append(f"random_walk_advance raised {exc_kind(e)} on valid arguments: {str(e)[:80]}")
+        return res
+    eff = [S] * N if lens is None else list(lens)
+    grow = S == 0 or max(eff + [0]) >= S
+    if tuple(yn.shape) != (S + (1 if grow else 0), N) or tuple(lpn.shape) != (N,) or yn.dtype != torch.long or lpn.dtype != dt:
+        res["impl"] = "badshape"
+        res["fail"].append(f"shapes/dtypes {tuple(yn.shape)} {yn.dtype} {tuple(lpn.shape)} {lpn.dtype}")
+        return res
+    ynl = yn.tolist()
+    res["impl"] = {"y": ynl, "lp": lpn.tolist()}
+    # the draw: handed over by the replaced multinomial, or (scripted) read back from where it must have been written
+    yt = [ynl[0][n] if S == 0 else ynl[eff[n]][n] for n in range(N)]
+    if any(not (0 <= k < V) for k in yt):
+        res["fail"].append(f"token outside the vocabulary written: {yt}")
+        return res
+    if not scripted and N and V:
+        w = seen.get("probs")
+        if w is None or tuple(w.shape) != (N, V):
+            res["fail"].append("torch.multinomial was not asked for one draw per path over the vocabulary")
+            return res
+        ref = lpt.double().exp()
+        wn, rn = w.double() / w.double().sum(1, keepdim=True), ref / ref.sum(1, keepdim=True)
+        if not torch.allclose(wn, rn, atol=1e-6 if dt == torch.float32 else 1e-12, rtol=0):
+            res["fail"].append(f"draw weights {w.tolist()} are not proportional to exp(log_probs_t)")
+    for n in range(N):
+        if lpt_l[n][yt[n]] is None:
+            res["fail"].append(f"path {n}: a zero-probability token was drawn")
+            return res
+        want = (prev_l[n] + lpt_l[n][yt[n]]) / 4
+        if float(lpn[n]) != want:
+            res["fail"].append(f"path {n}: log_probs_next {float(lpn[n])} != log_probs_prev + log_probs_t[token] = {want}")
+    res["terms"].append(("model_advance", f"zmat_eqb (rw_advance {lz(y_l)} {ln(eff)} {lz(yt)}) {lz(ynl)}"))
+    res["nontrivial"] = S >= 1 and N >= 2 and len(set(eff)) > 1
+    return res
+
+
+# ----------------------------------------------------------------------------------------
 # SequentialLanguageModelDistribution
 # ----------------------------------------------------------------------------------------
+
+def ref_log_prob(case, value, V, eos):
+    """the definition, in float64 with torch: value (..., S) long; row r of value.reshape(-1, Nn, S)[m] is path r (unbatched: the
+    flat index).  Sum of log_softmax(logits of the case's LM after the prefix)[token] up to and including the first eos."""
+    bsz = case["batch_size"]
+    S = value.size(-1)
+    flat = value.reshape(-1, S) if bsz is None else value.reshape(-1, bsz, S)
+    out, table = [], {}
+    for m in range(flat.size(0)):
+        rows = [flat[m].tolist()] if bsz is None else flat[m].tolist()
+        for j, seq in enumerate(rows):
+            n = m if bsz is None else j
+            tot, ended = 0.0, False
+            for t, tok in enumerate(seq):
+                pre = tuple(seq[:t])
+                lg = case_logits(case, n, pre, V)
+                table[(n, pre)] = lg
+                if 0 <= tok < V and not ended:
+                    tot += float((torch.tensor(lg, dtype=torch.float64) / 4).log_softmax(-1)[tok])
+                ended = ended or (eos is not None and tok == eos)
+            out.append(tot)
+    return torch.tensor(out, dtype=torch.float64).view(value.shape[:-1]), table
+
+
+def dist_history(case, dist, sample, walk_lp, walks, exp_prefix, V, eos, T, S, Nn, atol, tol, sampler, res):
+    """call-history checks on ONE distribution object (cache_samples on or off): log_prob must depend on the VALUE it is
+    given, not on what was sampled or scored before."""
+    bsz = case["batch_size"]
+    num = sample.numel() // max(1, S * Nn)
+
+    def ask(value, what):
+        try:
+            lp = dist.log_prob(value)
+        except Exception as e:  # noqa: BLE001
+            res["fail"].append(f"log_prob ({what}) raised {exc_kind(e)}: {str(e)[:70]}")
+            return None
+        if tuple(lp.shape) != exp_prefix:
+            res["fail"].append(f"log_prob ({what}) shape {tuple(lp.shape)}")
+            return None
+        return lp
+
+    def judge_other(other, lp, what):
+        ref, table = ref_log_prob(case, other, V, eos)
+        if not torch.isfinite(lp).all() or not torch.allclose(lp.double(), ref, atol=atol, rtol=0):
+            res["fail"].append(f"log_prob ({what}) {lp.tolist()} != the definition on that value {ref.tolist()}")
+        tab = cl([cp(cn(n), lz(list(pre)), lz([zs(x) for x in (torch.tensor(row, dtype=torch.float64) / 4).log_softmax(-1).tolist()]))
+                  for (n, pre), row in sorted(table.items())])
+        if bsz is None:
+            res["terms"].append((f"model_log_prob_{what}", f"check_dist_log_prob {cz(tol)} {tab} {cz(V)} {oz(eos)} "
+                                 f"{lz(other.reshape(-1, S).tolist())} {lz([zs(x) for x in lp.reshape(-1).tolist()])}"))
+        else:
+            res["terms"].append((f"model_log_prob_{what}", f"check_dist_log_prob_batched {cz(tol)} {tab} {cz(V)} {oz(eos)} "
+                                 f"{lz(other.reshape(-1, bsz, S).tolist())} {lz([[zs(x) for x in r] for r in lp.reshape(-1, bsz).tolist()])}"))
+
+    def edited(value):
+        """another member of the support with the same shape: the first token of the first sequence replaced (the result stays
+        complete when it fills max_iters or still contains eos)"""
+        o = value.clone()
+        first = o.reshape(-1, S)[0]
+        for new in range(V):
+            if new == int(first[0]):
+                continue
+            cand = first.clone()
+            cand[0] = new
+            done = (T is not None and S == T) or (eos is not None and bool((cand == eos).any()))
+            if done or not case["validate"]:
+                o.reshape(-1, S)[0, 0] = new
+                return o
+        return None
+
+    # (a) a different tensor of the same shape and dtype as the one just scored / sampled
+    other = edited(sample)
+    if other is not None and not torch.equal(other, sample):
+        lp = ask(other, "edited_copy")
+        if lp is not None:
+            judge_other(other, lp, "edited_copy")
+        # (b) ... and the original again (the cache now belongs to the edited copy)
+        lp = ask(sample, "original_after_edited_copy")
+        if lp is not None and not torch.allclose(lp.double(), walk_lp, atol=atol, rtol=0):
+            res["fail"].append(f"log_prob (original after an edited copy) {lp.tolist()} != walk log-probs {walk_lp.tolist()}")
+    # (c) other legal dtypes / layouts of the same value
+    for what, v in (("int32", sample.to(torch.int32)), ("float64", sample.double()), ("view", as_view(sample, case.get("form", 0)))):
+        lp = ask(v, what)
+        if lp is not None and not torch.allclose(lp.double(), walk_lp, atol=atol, rtol=0):
+            res["fail"].append(f"log_prob of the same value as {what} {lp.tolist()} != walk log-probs {walk_lp.tolist()}")
+    # (d) the caller edits the sample IN PLACE and asks again (same tensor object)
+    if case.get("inplace") and other is not None and not torch.equal(other, sample):
+        keep = sample.clone()
+        before = ask(sample, "before_in_place_edit")
+        sample.copy_(other)
+        lp = ask(sample, "edited_in_place")
+        sample.copy_(keep)
+        if lp is not None and before is not None:
+            ref, _ = ref_log_prob(case, other, V, eos)
+            if torch.isfinite(lp).all() and torch.allclose(lp.double(), ref, atol=atol, rtol=0):
+                judge_other(other, lp, "edited_in_place")
+            else:
+                # wrong.  K8 = exactly the log-probabilities of the PRE-edit contents (stale cache hit), cache_samples on
+                stale = bool(case["cache"]) and torch.allclose(lp.double(), before.double(), atol=atol, rtol=0) \
+                    and torch.allclose(before.double(), walk_lp, atol=atol, rtol=0)
+                res.setdefault("k8", []).append({"sub": "sample_edited_in_place", "stale": stale})
+                res["fail"].append(f"log_prob after the caller edited the sample in place {lp.tolist()} != the definition on the "
+                                   f"edited value {ref.tolist()}" + (" (= the log-probabilities of the contents before the edit)" if stale else ""))
+    # (e) the returned log-probabilities belong to the caller: editing them must not change later answers
+    if case.get("inplace"):
+        lp = ask(sample, "before_result_edit")
+        if lp is not None:
+            lp.fill_(-7.25)
+            lp2 = ask(sample, "after_result_edit")
+            if lp2 is not None and not torch.allclose(lp2.double(), walk_lp, atol=atol, rtol=0):
+                stale = bool(case["cache"]) and bool((lp2 == -7.25).all())
+                res.setdefault("k8", []).append({"sub": "returned_log_probs_edited_in_place", "stale": stale})
+                res["fail"].append(f"log_prob after the caller overwrote the previously returned tensor with -7.25: {lp2.tolist()} != "
+                                   f"{walk_lp.tolist()}" + (" (= the caller's edit: the cache hands out its own tensor)" if stale else ""))
+            dist.clear_cache()
+    # (f) a second sample replaces the cache: it must score as ITS walks did, and the first sample still as its own
+    n0 = len(walks)
+    try:
+        with mock.patch.object(torch, "multinomial", sampler):
+            second = dist.sample(torch.Size(case["sample_shape"]))
+    except Exception as e:  # noqa: BLE001
+        res["fail"].append(f"second sample raised {exc_kind(e)}")
+        return
+    new = [w["out"][2].double() for w in walks[n0:]]
+    if new and second.size(-1) > 0:
+        lp_new = (new[0] if bsz is None else torch.stack(new)).view(walk_lp.shape)
+        lp = ask(second, "second_sample")
+        if lp is not None and not torch.allclose(lp.double(), lp_new, atol=atol, rtol=0):
+            res["fail"].append(f"log_prob of the second sample {lp.tolist()} != its walk log-probs {lp_new.tolist()} "
+                               f"(first sample's: {walk_lp.tolist()})")
+    lp = ask(sample, "first_sample_after_second_sample")
+    if lp is not None and not torch.allclose(lp.double(), walk_lp, atol=atol, rtol=0):
+        res["fail"].append(f"log_prob of the first sample after a second sample {lp.tolist()} != walk log-probs {walk_lp.tolist()} "
+                           f"(second sample {second.tolist()})")
+
 
 def dist_eval(case):
     from pydrobert.torch.modules import RandomWalk
@@ -584,6 +1032,8 @@ def dist_eval(case):
     else:
         res["terms"].append(("model_log_prob", f"check_dist_log_prob_batched {cz(tol)} {tab} {cz(V)} {oz(eos)} {lz(flat.tolist())} "
                                                f"{lz([[zs(x) for x in r] for r in lps[2].reshape(num, bsz).tolist()])}"))
+    if case.get("hist"):
+        dist_history(case, dist, sample, walk_lp, walks, exp_prefix, V, eos, T, S, Nn, atol, tol, sampler, res)
     # support
     if T is not None and 1 <= T and V ** T <= 100 and case.get("support", True):
         try:
@@ -636,6 +1086,45 @@ def dist_eval(case):
 # ctc_greedy_search
 # ----------------------------------------------------------------------------------------
 
+def call_greedy(case, inp, lt, blank, bf, ip):
+    """ctc_greedy_search through the entry point / layout / history named by case['via']"""
+    from pydrobert.torch.functional import ctc_greedy_search
+    from pydrobert.torch.modules import CTCGreedySearch
+    via, form = case.get("via"), case.get("form", 0)
+    if via == "views":
+        inp = as_view(inp, form)
+        if lt is not None:
+            lt = as_view(lt, 2)
+    if via == "module":
+        fn = lambda: CTCGreedySearch(blank, bf, ip)(inp, lt)  # noqa: E731
+    elif via == "script":
+        fn = lambda: torch.jit.script(CTCGreedySearch(blank, bf, ip))(inp, lt)  # noqa: E731
+    elif via == "kw":
+        kw = {}
+        if lt is not None or form % 2:
+            kw["in_lens"] = lt
+        if blank != -1 or form % 4 >= 2:
+            kw["blank_idx"] = blank
+        if bf or form % 3 == 0:
+            kw["batch_first"] = bf
+        if ip or form % 5 == 0:
+            kw["is_probs"] = ip
+        fn = lambda: ctc_greedy_search(logits=inp, **kw)  # noqa: E731
+    else:
+        fn = lambda: ctc_greedy_search(inp, lt, blank, bf, ip)  # noqa: E731
+    tensors = [inp] + ([lt] if lt is not None else [])
+    out = call_checked(fn, tensors)
+    if via == "twice":
+        out2 = call_checked(fn, tensors)
+        T = inp.size(1 if bf else 0)
+        m = torch.arange(T).unsqueeze(0) < out[2].unsqueeze(1)
+        p1, p2 = (out[1], out2[1]) if bf else (out[1].t(), out2[1].t())
+        if not (same_tensor(out[0], out2[0]) and same_tensor(out[2], out2[2]) and p1.shape == p2.shape
+                and same_tensor(p1.masked_fill(~m, 0), p2.masked_fill(~m, 0))):
+            raise Variant("two identical calls differ")
+    return out
+
+
 def greedy_eval(case):
     from pydrobert.torch.functional import ctc_greedy_search
     N, T, V, blank, bf, ip, lens = (case[k] for k in ("N", "T", "V", "blank", "batch_first", "is_probs", "lens"))
@@ -653,8 +1142,12 @@ def greedy_eval(case):
     lt = None if lens is None else torch.tensor(lens, dtype=torch.long)
     res = {"terms": [], "spec": [], "fail": [], "nontrivial": False}
     try:
-        sc, paths, olens = ctc_greedy_search(inp, lt, blank, bf, ip)
+        sc, paths, olens = call_greedy(case, inp, lt, blank, bf, ip)
         exc = None
+    except Variant as e:
+        res["impl"] = "variant"
+        res["fail"].append(f"ctc_greedy_search via {case.get('via')}: {e}")
+        return res
     except Exception as e:  # noqa: BLE001
         exc = exc_kind(e)
     if ip:
@@ -704,7 +1197,7 @@ def greedy_eval(case):
     return res
 
 
-EVAL = {"slp": slp_eval, "ps": ps_eval, "walk": walk_eval, "dist": dist_eval, "greedy": greedy_eval}
+EVAL = {"slp": slp_eval, "ps": ps_eval, "walk": walk_eval, "dist": dist_eval, "greedy": greedy_eval, "adv": adv_eval}
 
 
 # ----------------------------------------------------------------------------------------
@@ -848,7 +1341,108 @@ def _g_greedy(rng):
                 lens=lens, seed=rng.randrange(2 ** 31), stream="rnd-greedy")
 
 
+def _g_greedy_ragged(rng):
+    """a blank that is NOT the last label (given as a positive or a negative index), a batch of ragged in_lens with empty
+    and full elements; the frames beyond an element's length repeat its last valid label or show the blank / another label"""
+    V = rng.choice([2, 3, 3, 4, 5])
+    N, T = rng.choice([2, 2, 3, 4]), rng.choice([2, 3, 4, 5, 6])
+    b = rng.randrange(0, V - 1)
+    blank = b if rng.random() < 0.5 else b - V
+    lens = [rng.choice([0, T, rng.randint(0, T), rng.randint(1, T)]) for _ in range(N)]
+    if len(set(lens)) == 1:
+        lens[0] = (lens[0] + 1 + rng.randrange(T)) % (T + 1)
+    ip = rng.random() < 0.4
+    hi, lo = (8, 0) if ip else (6, -6)
+    vals = []
+    for n in range(N):
+        labs = [rng.choice([b, b, rng.randrange(V), rng.randrange(V)]) for _ in range(T)]
+        for t in range(1, T):
+            if rng.random() < 0.35:
+                labs[t] = labs[t - 1]                      # repeats, also across the length boundary
+        for t in range(T):
+            row = [rng.randint(lo, hi - 2) for _ in range(V)]
+            row[labs[t]] = hi - (1 if rng.random() < 0.3 else 0)
+            vals += row
+    return dict(api="greedy", N=N, T=T, V=V, blank=blank, batch_first=rng.random() < 0.5, is_probs=ip, lens=lens, vals=vals,
+                stream="rb-greedy-ragged")
+
+
+def _g_adv(rng):
+    """random_walk_advance on prompts: S rows in the buffer, lengths ragged (some fill the buffer: it grows; or none does:
+    it must not), unset, or all equal"""
+    N, V, S = rng.choice([1, 2, 2, 3, 4]), rng.choice([1, 2, 3, 3, 4]), rng.choice([0, 1, 2, 3, 3, 4, 5])
+    mode = rng.choice(["none", "full", "ragged-grow", "ragged-grow", "ragged-nogrow", "ragged-nogrow", "zeros", "any"])
+    if S == 0:
+        lens = None if mode == "none" else [0] * N
+    elif mode == "none":
+        lens = None
+    elif mode == "full":
+        lens = [S] * N
+    elif mode == "zeros":
+        lens = [0] * N
+    elif mode == "ragged-grow":
+        lens = [rng.randint(0, S) for _ in range(N)]
+        lens[rng.randrange(N)] = S
+    elif mode == "ragged-nogrow":
+        lens = [rng.randint(0, S - 1) for _ in range(N)]
+    else:
+        lens = [rng.randint(0, S) for _ in range(N)]
+    c = dict(api="adv", N=N, V=V, S=S, lens=lens, pinf=rng.choice([0.0, 0.0, 0.2]), seed=rng.randrange(2 ** 31), stream="rb-adv")
+    if rng.random() < 0.5:
+        c["via"], c["form"] = rng.choice(ADV_VIAS), rng.randrange(12)
+        if c["via"] == "script":
+            c["tseed"] = rng.randrange(2 ** 31)
+    if rng.random() < 0.3:
+        c["dtype"] = "f32"
+    return c
+
+
+def _robust(rng, api):
+    """a case of the plain generator run through another entry point / call form / layout / history (same model term)"""
+    c = GEN[api](rng)
+    c["stream"] = "rb-" + api
+    vias = {"slp": SLP_VIAS, "ps": PS_VIAS, "greedy": GREEDY_VIAS, "walk": WALK_VIAS}.get(api)
+    if vias:
+        c["via"], c["form"] = rng.choice(vias), rng.randrange(12)
+    if api in ("slp", "ps", "greedy", "walk") and rng.random() < 0.25:
+        c["dtype"] = "f32"
+    if api == "walk":
+        if rng.random() < 0.5 and c["via"] != "noinit":
+            c["bias"] = [rng.randint(-10, 10) for _ in range(c["V"])]
+        if c["via"] == "script":
+            c.pop("script", None)
+            c["tseed"] = rng.randrange(2 ** 31)
+            if c["max_iters"] is None:
+                c["max_iters"] = rng.randint(1, 6)      # the real generator draws: no forced end of a path
+            if c["N"] == 0:
+                c["N"] = 2
+    if api == "dist":
+        c["hist"], c["form"] = True, rng.randrange(12)
+        c["cache"] = rng.random() < 0.75
+        if GEN_INPLACE and rng.random() < 0.5:
+            c["inplace"] = True
+        if c["sample_shape"] in ([0], [2, 0]):
+            c["sample_shape"] = [2]
+    return c
+
+
 GEN = {"slp": _g_slp, "ps": _g_ps, "walk": _g_walk, "dist": _g_dist, "greedy": _g_greedy}
+
+
+def gen_robust(chk):
+    """drawn after every older stream, so those are per seed what they were"""
+    rng = chk.rng
+    thorough = chk.tier == "thorough"
+    n = dict(slp=1200, ps=700, greedy=1000, walk=1000, dist=600, adv=1500, ragged=800) if thorough else \
+        dict(slp=100, ps=60, greedy=90, walk=100, dist=60, adv=120, ragged=70)
+    cases = [_robust(rng, api) for api in ("slp", "ps", "greedy", "walk", "dist") for _ in range(n[api])]
+    cases += [_g_adv(rng) for _ in range(n["adv"])]
+    for _ in range(n["ragged"]):
+        c = _g_greedy_ragged(rng)
+        if rng.random() < 0.4:
+            c["via"], c["form"] = rng.choice(GREEDY_VIAS), rng.randrange(12)
+        cases.append(c)
+    return cases
 
 
 def gen_random(chk):
@@ -901,6 +1495,13 @@ def signature(entry, rec):
                 and c["max_iters"] is not None and 1 < rec.get("S", 0) < c["max_iters"])
     if sig.get("kind") == "packed_negative_dim":
         return bool(rec.get("raised")) and c["dim"] < 0
+    if sig.get("kind") == "inplace-after-cache":
+        # K8, narrow: the distribution wrapper with cache_samples=True, the in-place sub-checks only, EVERY failure of the case
+        # is one of them, and each wrong answer is exactly the stale one (the log-probabilities of the contents before the
+        # edit / the caller's own overwrite of the returned tensor); the model terms of the case must all hold
+        k8 = rec.get("k8") or []
+        return (bool(c.get("cache")) and bool(sig.get("cache", True)) and bool(c.get("inplace")) and len(k8) > 0
+                and rec.get("fail_n") == len(k8) and rec.get("model_ok") is True and all(e.get("stale") is True for e in k8))
     return False
 
 
@@ -1001,7 +1602,7 @@ def judge(chk, case, res, model_ok):
     """build the record of a failing case; returns (record, concrete?)"""
     rec = {"case": case, "impl": res.get("impl"), "correspondence": "corr:C07:" + case["api"],
            "theorems_at_stake": THEOREMS[case["api"]], "impl_level_failures": res["fail"]}
-    for k in ("raised", "logprob_raised", "S"):
+    for k in ("raised", "logprob_raised", "S", "k8"):
         if res.get(k) is not None:
             rec[k] = res[k]
     sub = {}
@@ -1042,7 +1643,17 @@ def run(chk, cases=None):
         "implementation's own sum (float64: (n+1)*max|lp|*2^-50; float32: (n+1)*(1+max|lp|)*2^-19); a non-finite output is a "
         "failure by itself (finite logits have finite log-probabilities; the zero-probability token scores -(hundreds), not -inf). non-trivial = (slp) a sequence of "
         "length>=2 with an out-of-vocabulary token or an eos before its end; (ps) ragged lengths; (walk) >=2 steps and a path that ended "
-        "early or the step limit hit; (dist) a non-empty sample re-scored; (greedy) a repeat or blank removed inside the valid length")
+        "early or the step limit hit; (dist) a non-empty sample re-scored; (greedy) a repeat or blank removed inside the valid length. "
+        "Robustness streams (rb-*, drawn last): the same generators through every public entry point (functional, modules.* wrapper, "
+        "torch.jit.script of the wrapper / of RandomWalk over a scripted LM, keyword arguments with defaults omitted), through "
+        "non-contiguous views of every argument, in float32, called twice (answers bit-identical, arguments not overwritten); walks "
+        "with an initial state the LM depends on, with initial_state None / omitted, on a module object used before; adv: "
+        "functional.random_walk_advance driven directly on prompts with ragged y_prev_lens (buffer grows / must not grow; the token "
+        "goes to position y_prev_lens[n]) vs Model.rw_advance, log_probs_next exact, draw weights proportional to exp(log_probs_t); "
+        "dist call history on ONE object (cache on/off): log_prob of an edited COPY of the sample (judged by Model.dist_log_prob and by "
+        "the definition), the original again, the same value as int32 / float64 / non-contiguous, a second sample (scores as its own "
+        "walks, the first sample still as its own), and - known finding K8 when cache_samples=True - after the caller edited the sample "
+        "or a returned log-prob tensor in place; greedy with a non-last blank (positive and negative index) and ragged in_lens incl. 0")
     chk.assumptions += [
         "torch.log_softmax (float64) is an oracle: its result is data for the model (regime T of DESIGN.md section 3); for float32 "
         "inputs the oracle is the float64 log_softmax of the same (exactly representable) logits",
@@ -1050,10 +1661,14 @@ def run(chk, cases=None):
         "the language model is a per-element function of (batch index, prefix); RandomWalk.update_log_probs_for_step is the default",
         "max_iters=None is modelled as 'no limit' (the code uses 2^30)",
         "PackedSequence inputs are those torch's pack_padded_sequence produces; hyp covers the longest sequence",
+        "scripted RandomWalk / random_walk_advance: torch.multinomial cannot be replaced inside TorchScript, so the real generator draws "
+        "and the draws are read back from the returned paths (the model then re-runs the walk on them and checks every cell)",
+        "K8 (known_findings.d/C07.json): with cache_samples=True an in-place edit of the sample (or of a returned log-prob tensor) makes "
+        "log_prob answer from the stale cache; matched only when every failure of the case is such a stale answer (signature())",
     ]
     replaying = cases is not None
     if cases is None:
-        cases = gen_exhaustive(chk) + [dict({k: v for k, v in c.items() if k != "note"}, stream="corpus") for c in load_corpus("C07") if "api" in c] + gen_random(chk) + gen_extreme(chk)
+        cases = gen_exhaustive(chk) + [dict({k: v for k, v in c.items() if k != "note"}, stream="corpus") for c in load_corpus("C07") if "api" in c] + gen_random(chk) + gen_extreme(chk) + gen_robust(chk)
     results, terms = [], []
     for c in cases:
         stream = c.pop("stream", "random")
@@ -1075,6 +1690,19 @@ def run(chk, cases=None):
                 chk.count(f"{c['api']}.{k}={v}")
         out = res.get("impl")
         chk.count(f"{c['api']}.outcome=" + (out if isinstance(out, str) else "ok"))
+        if c.get("via"):
+            chk.count(f"{c['api']}.via={c['via']}")
+        if c["api"] == "adv":
+            eff = [c["S"]] * c["N"] if c["lens"] is None else c["lens"]
+            chk.count("adv.lens=" + ("unset" if c["lens"] is None else "uniform" if len(set(eff)) <= 1 else
+                                     "ragged,buffer_grows" if max(eff) >= c["S"] else "ragged,buffer_kept"))
+        if c["api"] == "greedy" and c["lens"] is not None and c["V"] >= 2 and (c["blank"] + c["V"]) % c["V"] != c["V"] - 1 \
+                and -c["V"] <= c["blank"] < c["V"] and len(set(c["lens"])) > 1:
+            chk.count("situation:greedy,non_last_blank,ragged_in_lens" + (",with_empty_element" if 0 in c["lens"] else ""))
+        if c["api"] == "dist" and c.get("hist"):
+            chk.count("situation:dist,call_history,cache=%s" % c["cache"])
+        if c["api"] == "walk" and c.get("bias") is not None:
+            chk.count("walk.initial_state=bias")
     ok = coq_eval_bools(chk.workdir, IMPORTS, terms)
     bad = [i for i in range(len(cases)) if results[i]["fail"] or not ok[i]]
     chk.extra["model_disagreements"] = sum(1 for i in range(len(cases)) if not ok[i])
@@ -1082,7 +1710,8 @@ def run(chk, cases=None):
     reported_concrete, pending_nfi, seen = 0, [], set()
     for i in bad:
         case, res = cases[i], results[i]
-        quick = {"case": case, "raised": res.get("raised"), "logprob_raised": res.get("logprob_raised"), "S": res.get("S")}
+        quick = {"case": case, "raised": res.get("raised"), "logprob_raised": res.get("logprob_raised"), "S": res.get("S"),
+                 "k8": res.get("k8"), "fail_n": len(res["fail"]), "model_ok": bool(ok[i]), "api": case["api"]}
         if res["fail"] and chk.known_match(signature, quick) is not None:
             chk.report(quick, signature)  # counted under its known-findings entry
             continue
